@@ -126,6 +126,20 @@ MUTANTS = [
      "        self.traffic_counter.clear()\n        self.traffic_start = now", "        self.traffic_start = now"),
     ("c18_pid_from_wrong_module", "C18", M,
      "            data.ModulePID[mod.mod_id] = mod.pid", "            data.ModulePID[mod.mod_id] = mod.uid"),
+    ("c17_stage_keeps_rbuf", "C17", DS,
+     "        self.wbuf = self.rbuf\n        self.rbuf = []", "        self.wbuf = list(self.rbuf)"),
+    ("c17_clear_before_write", "C17", DS,
+     "        self.formatter.write(self.wbuf)\n        self.wbuf.clear()", "        self.wbuf.clear()\n        self.formatter.write(self.wbuf)"),
+    ("c17_ql_offsets_reset", "C17", QL,
+     "        self.num_writes += 1\n", "        self.num_writes += 1\n        self.ofs = 0\n"),
+    ("c17_lock_removed", "C17", DC,
+     "                    with self._write_lock:\n                        self.write_to_disk.clear()", "                    if True:\n                        self.write_to_disk.clear()"),
+    ("c17_stop_does_not_wait", "C17", DC,
+     "        if self.write_to_disk.is_set():\n            while not self.write_finished.wait(0.250):", "        if False:\n            while not self.write_finished.wait(0.250):"),
+    ("c17_paused_still_records", "C17", DC,
+     "        if self._paused or not self._recording:\n            return", "        if not self._recording:\n            return"),
+    ("c17_subdivide_skips_footer_and_reopens_same", "C17", DS,
+     "        new_filename = f\"{base_name}_{self.sub_index:04d}{self.formatter_cls.ext}\"", "        new_filename = f\"{base_name}_{max(self.sub_index, 2):04d}{self.formatter_cls.ext}\""),
     ("c03_size_check_off_by_one", "C03", M,
      "if data_size < 0 or data_size > len(self.data_buffer):", "if data_size < -1 or data_size > len(self.data_buffer):"),
 ]
